@@ -548,6 +548,10 @@ func (h *Session) Ping6(srcAddr Addr, dstAddr Addr, timeout time.Duration) (err 
 	icmpTable.Unlock()
 
 	if err = h.ICMP6SendEchoRequest(srcAddr, dstAddr, id, seq); err != nil {
+		// nobody will wait for the reply: remove the waiter entry
+		icmpTable.Lock()
+		delete(icmpTable.table, id)
+		icmpTable.Unlock()
 		return err
 	}
 
@@ -587,6 +591,10 @@ func (h *Session) ping(srcAddr Addr, dstAddr Addr, timeout time.Duration) (err e
 	icmpTable.Unlock()
 
 	if err = h.ICMP4SendEchoRequest(srcAddr, dstAddr, id, seq); err != nil {
+		// nobody will wait for the reply: remove the waiter entry
+		icmpTable.Lock()
+		delete(icmpTable.table, id)
+		icmpTable.Unlock()
 		return err
 	}
 
